@@ -547,3 +547,51 @@ def roots_x(P, body, op, suffix=(), depth=0):
 def all_roots_x(P, body, op, pred):
     rs = roots_x(P, body, op)
     return bool(rs) and all(pred(r) for b2, r in rs)
+
+
+def promoted_variant(body, op, depth=0):
+    """name of the enum variant a (reference to a) promoted constant operand denotes, e.g. 'NewToOld'; None otherwise"""
+    if op.get("k") == "const":
+        pr = op.get("promoted") or []
+        if len(pr) == 1:
+            return str(pr[0]).rsplit("::", 1)[-1]
+        return None
+    if op.get("k") not in ("copy", "move") or depth > 4:
+        return None
+    d = mir.single_def(body, op["place"]["l"])
+    if not d or d[0] != "assign":
+        return None
+    rv = d[4]
+    if rv["k"] == "use":
+        return promoted_variant(body, rv["op"], depth + 1)
+    if rv["k"] == "ref" and not [e for e in rv["place"]["p"] if e.get("k") != "deref"]:
+        return promoted_variant(body, {"k": "copy", "place": {"l": rv["place"]["l"], "p": []}}, depth + 1)
+    return None
+
+
+def enum_eq_tests(body):
+    """switches of the form `x == Enum::Variant` / `x != Enum::Variant` (derived PartialEq against a constant):
+    [(switch bb, roots of x, variant name, target when x is that variant, target when it is not)]"""
+    out = []
+    for s in sorted(body.live_blocks()):
+        ds = mir.describe_switch(body, s)
+        if not ds or ds[0] != "call":
+            continue
+        cn, args, site = ds[1]
+        last = str(cn).rsplit("::", 1)[-1]
+        if last not in ("eq", "ne") or "PartialEq" not in str(cn):
+            continue
+        ct = body.term(site)
+        if len(ct["args"]) != 2:
+            continue
+        for i in (0, 1):
+            v = promoted_variant(body, ct["args"][i])
+            if v is None:
+                continue
+            other = frozenset(prov(body, ct["args"][1 - i]))
+            t_true = [tb for tb, labs in ds[2].items() if True in labs]
+            t_false = [tb for tb, labs in ds[2].items() if False in labs]
+            if len(t_true) == 1 and len(t_false) == 1:
+                is_v, not_v = (t_true[0], t_false[0]) if last == "eq" else (t_false[0], t_true[0])
+                out.append((s, other, v, is_v, not_v))
+    return out
